@@ -81,6 +81,9 @@ pub fn spaces(tier: Tier) -> Vec<Space<'static>> {
     let sk = refmodel::gen::strkey_docs();
     let p5 = pool.clone();
     sp.push(Space::new("special-character keys (every key and pair of keys from SSTR)", sk.len() as u64, move |i, acc| check_doc(&sk[i as usize], &Opts { extremes: false, pool: p5.clone(), sets: false }, acc)));
+    let tv = refmodel::gen::tagv_docs();
+    let p6 = pool.clone();
+    sp.push(Space::new("tag-like payloads and keyword keys", tv.len() as u64, move |i, acc| check_doc(&tv[i as usize], &Opts { extremes: false, pool: p6.clone(), sets: false }, acc)));
     let d1q = univ::d1q();
     let p2 = pool.clone();
     sp.push(Space::new("d1q-derived-args", d1q.len() as u64, move |i, acc| check_doc(&d1q[i as usize], &Opts { extremes: false, pool: p2.clone(), sets: false }, acc)));
